@@ -7,6 +7,7 @@ pub mod keys;
 pub mod proto;
 pub mod specref;
 pub mod rt;
+pub mod scen;
 pub mod c01;
 pub mod c02;
 pub mod c03;
